@@ -259,6 +259,9 @@ func (m *Model) Run(hist []string) *proto.Result {
 			r.Err = fmt.Sprintf("event %d %s not enabled on replay (nondeterminism?)", i, ev)
 			return r
 		}
+		if len(w.Panics) > 0 {
+			return m.died(w, hist, r)
+		}
 	}
 	if err := w.N.SelfCheck(); err != nil {
 		r.Err = "simulator self-check: " + err.Error()
@@ -277,6 +280,9 @@ func (m *Model) Run(hist []string) *proto.Result {
 			r.Err = "drain: " + err.Error()
 			return r
 		}
+		if len(w.Panics) > 0 {
+			return m.died(w, hist, r)
+		}
 	}
 	var pre []string
 	if m.O.Import || m.O.Remove {
@@ -286,6 +292,9 @@ func (m *Model) Run(hist []string) *proto.Result {
 			// violation (C07 "ends, when the background import finishes", C08 "after a wallet
 			// removal completes ... the same mnemonic can be imported again", C20)
 			pre = append(pre, "background work does not complete: "+err.Error())
+		}
+		if len(w.Panics) > 0 {
+			return m.died(w, hist, r)
 		}
 		for len(w.N.Queue) > 0 {
 			if err := w.Deliver(); err != nil {
@@ -351,3 +360,17 @@ func (m *Model) Run(hist []string) *proto.Result {
 }
 
 func (m *Model) restarts(w *world.World) int { return w.Restarts }
+
+// died: the follower (or a background step) panicked or was left suspended for good. The real
+// goroutine would be gone - and a panic inside a write transaction leaves the writer mutex
+// locked - so nothing more is asked of this instance: the state is reported as violating.
+func (m *Model) died(w *world.World, hist []string, r *proto.Result) *proto.Result {
+	kh := sha256.Sum256([]byte(strings.Join(hist, ",")))
+	r.Viol = append([]string{}, w.Panics...)
+	r.Key = "died:" + hex.EncodeToString(kh[:12])
+	r.Outcome = "died"
+	r.Succ = nil
+	r.Info["follower_died"] = 1
+	env.TakeFatals()
+	return r
+}
